@@ -16,6 +16,7 @@ def run(F, G, tier, seed):
     effects.run_lvshape(chk, F, G, parts=("symbols",))
     effects.run_visitors(chk, F, visitors=("UTAP::CollectChangesVisitor",))
     effects.run_reads(chk, F)
+    effects.run_callee(chk, F, ["collect_possible_writes", "collect_possible_reads"])
     from ..callgraph import CallGraph
     CG = CallGraph(F)
     effects.run_prepass(chk, F, CG, fields=("changes", "depends"))
